@@ -138,7 +138,7 @@ def install_wrappers():
             sg = getattr(CTX.get("model"), "subgraph", None)
             if sg is not None and hasattr(sg, "constant"):
                 # state the candidate was scored with (for C16: a candidate k must be scored with ITS OWN neighbourhood size)
-                ent.update(preds=[int(x) for x in preds], cost=[float(n.cost) for n in sg.nodes], dens=[float(n.density) for n in sg.nodes],
+                ent.update(labels=[int(x) for x in labels], preds=[int(x) for x in preds], cost=[float(n.cost) for n in sg.nodes], dens=[float(n.density) for n in sg.nodes],
                            pred=[int(n.pred) for n in sg.nodes], root=[int(n.root) for n in sg.nodes], plab=[int(n.predicted_label) for n in sg.nodes],
                            constant=float(sg.constant), mn=float(sg.min_density), mx=float(sg.max_density))
             CTX["log"].append(("acc", ent))
